@@ -13,6 +13,7 @@ type Parser struct {
 	didEndStatement bool
 	inFunction      bool
 	inLoop          bool
+	lexErr          error
 }
 
 type parseRule struct {
@@ -107,6 +108,11 @@ func (p *Parser) error(pos int, msg string) SyntaxError {
 func (p *Parser) advance() (Token, error) {
 	t, err := p.lexer.Next()
 	if err != nil {
+		// remember the first lexer error: not every caller checks the result of
+		// consume(), and the follow-up parser error would point somewhere else
+		if p.lexErr == nil {
+			p.lexErr = err
+		}
 		return t, err
 	}
 	p.previous = p.current
@@ -966,11 +972,16 @@ func (p *Parser) parseFunction() (ExprFunction, error) {
 	}, nil
 }
 
-func (p *Parser) ParseExpression() (Expr, error) {
+func (p *Parser) ParseExpression() (expr Expr, err error) {
+	defer func() {
+		if err != nil && p.lexErr != nil {
+			err = p.lexErr
+		}
+	}()
 	if _, err := p.advance(); err != nil {
 		return nil, err
 	}
-	expr, err := p.expression()
+	expr, err = p.expression()
 	if err != nil {
 		return nil, err
 	}
@@ -980,8 +991,12 @@ func (p *Parser) ParseExpression() (Expr, error) {
 	return expr, nil
 }
 
-func (p *Parser) Parse() (Program, error) {
-	prog := Program{}
+func (p *Parser) Parse() (prog Program, err error) {
+	defer func() {
+		if err != nil && p.lexErr != nil {
+			err = p.lexErr
+		}
+	}()
 	rules := make([]Rule, 0)
 	functions := make([]ExprFunction, 0)
 	if _, err := p.advance(); err != nil {
